@@ -12,7 +12,7 @@ from .corpus import Corpus
 from .mergefam import plan_item
 
 CLAUSES = ("Completes", "AppliesToMerged", "AllLocalIsLocal", "AllRemoteIsRemote", "OrderedOK",
-           "SamePathContiguous", "DecisionSchemaOK", "DecisionPlainJSON")
+           "SamePathContiguous", "DecisionSchemaOK", "PublishedSchemaOK", "DecisionPlainJSON")
 
 
 def classify(chk, ev, run, clauses, clause_set, info=None):
@@ -25,9 +25,6 @@ def classify(chk, ev, run, clauses, clause_set, info=None):
         if c == "Completes":
             chk.violation("merge-raises:%s:%s" % (run["raised"]["type"], run["raised"]["where"]),
                           "merge raised %(type)s at %(where)s: %(msg)s" % run["raised"], rep)
-        elif c == "DecisionSchemaOK" and "DecisionSchemaOKModTakeMax" not in clauses:
-            chk.violation("decision-schema:action-take_max-not-in-published-enum",
-                          "decision list uses action take_max which merge_format.schema.json does not list", rep)
         else:
             chk.violation("clause:%s" % c, "clause %s is false (strategy %s)" % (c, strat), rep)
 
@@ -58,8 +55,8 @@ def run():
         tasks = make_tasks(triples, r, n_cli=6, all_cli_for=60)
     events = mergefam.generate(tasks)
     info = {t[0]: t[4] for t in triples}
-    for ev in events:
-        chk.count((info[ev["tid"]].get("abstract"),), nontrivial=True, n=len(ev["runs"]))
+    for tid, names in events.meta:
+        chk.count((info[tid].get("abstract"),), nontrivial=True, n=len(names))
     v = mergefam.validate(chk, events, "MergeTrace on %d triples" % len(events))
     idx = mergefam.index_runs(events)
     for key, clauses in v.fails.items():
